@@ -145,6 +145,31 @@ CHECKS = {
         technique="Lean 4 proof (hand model + generated analysis) + correspondence",
         design="6/C12",
     ),
+    "C08": dict(
+        text=("Theorem power_eq_textbook over the regenerated _power_from_stats/_scale_and_distr: for every variance, n, "
+              "effect, ratio, alpha and option cell the reported power is the textbook one (groups n/(1+r), n r/(1+r); "
+              "normal at d/se or non-central t with the test's df and nc = d/se; one/two-sided rejection region). "
+              "power in [0,1]; closed form se^2 = v(1+r)^2/(n r); for the Z test power is monotone in the effect, in n "
+              "and in the variance (covariate never lowers power, with cuped_var_le); one-sided t in the effect under "
+              "the stated nct law. Tie: translator + exact correspondence of solve_power(..., 'power') grids; float "
+              "search of range/monotonicity on the real code."),
+        note=NOTE_COMMON + "Laws of norm / nct (location family, stochastic monotonicity, cdf in [0,1]) are hypotheses "
+             "sampled on scipy; two-sided and t-test-in-n monotonicity are checked, not proved.",
+        technique="Lean 4 proof over generated model + exact correspondence + float relation search",
+        design="6/C08",
+    ),
+    "C09": dict(
+        text=("Theorems over the bracket set-up GENERATED from _solve_power_from_stats and a hand-modelled solver: "
+              "_find_boundary returns a point with fn <= 0 reached by multiplications (or fails after MAX_ITER), keeps "
+              "the sign; every point of the n_obs bracket leaves both groups more than one observation for every "
+              "ratio > 0 (false before the fix); under the brentq contract the solved effect reproduces the target "
+              "power and its sign follows the alternative, the solved n reproduces it inside the admissible bracket; "
+              "ceil of the root is the least integer reaching the target for an increasing power curve. Tie: "
+              "translator + exact correspondence of the brackets handed to brentq; float search on the real solver."),
+        note=NOTE_COMMON + "brentq contract is a hypothesis; the solver's control flow (Model/Solve.lean) is hand-written.",
+        technique="Lean 4 proof over generated brackets + hand-modelled solver + bracket correspondence",
+        design="6/C09",
+    ),
 }
 
 PENDING_REASON = "check not implemented yet in this round (see DESIGN.md section 6 for the planned model and theorems)"
